@@ -354,6 +354,18 @@ func (endp *Endpoint) setupListeners(addresses []config.Endpoint) error {
 }
 
 func (endp *Endpoint) NewSession(conn *smtp.Conn) (smtp.Session, error) {
+	// go-smtp creates a new session for each EHLO/LHLO and just drops the
+	// previous one. Per RFC 5321 Section 4.1.4 a repeated EHLO resets the
+	// state as RSET does, so finish the previous session properly: abort
+	// the open delivery, return the limits and update the session counter.
+	if conn != nil {
+		if prev, ok := conn.Session().(*Session); ok && prev != nil {
+			if err := prev.Logout(); err != nil {
+				endp.Log.Error("previous session logout failed", err)
+			}
+		}
+	}
+
 	sess := endp.newSession(conn)
 
 	// Executed before authentication and session initialization.
